@@ -119,6 +119,8 @@ def setup_entry(ex: Exec, ct: Contract, fi: FuncInfo):
             ctx.assume(ex.truth(ex.eval(parse_expr(e))))
         if ct.uses_invariant and "self" in params and ct.cls in ex.reg.classes:
             for k, e in ex.reg.classes[ct.cls].invariant.items():
+                if k in ct.ghost.get("inv_except", []):
+                    continue
                 ctx.assume(ex.truth(ex.eval(parse_expr(e))))
     finally:
         ex.spec_mode = False
@@ -205,6 +207,8 @@ def check_normal_exit(ex: Exec, ct: Contract, fi: FuncInfo, result: SV):
             ex.spec_mode = True
         if ct.keeps_invariant and "self" in ct.params and ct.cls in ex.reg.classes:
             for k, e in ex.reg.classes[ct.cls].invariant.items():
+                if k in ct.ghost.get("inv_except", []):
+                    continue
                 t = ex.truth(ex.eval(parse_expr(e)))
                 ex.spec_mode = False
                 ctx.oblige(f"inv:{q}:{k}", t, kind="inv", line=fi.lineno)
